@@ -808,6 +808,7 @@ func Main(args []string) int {
 		}
 		rings := []rc{{8, []uint64{17, 97, 113}, false}, {16, []uint64{97, 193, 257}, false}, {32, []uint64{193, 257, 449}, false},
 			{8, []uint64{97, 193, 257}, true}, {16, []uint64{193, 257, 449}, true}, {32, []uint64{257, 641, 769}, true}}
+		ri := 0
 		for _, c := range rings {
 			var r *ring.Ring
 			var err error
@@ -817,6 +818,14 @@ func Main(args []string) int {
 				r, err = ring.NewRing(c.n, c.mods)
 			}
 			tr.Must(err)
+			// every other ring is the one that comes back from its own binary encoding (same arithmetic, same type)
+			if ri++; ri%2 == 0 {
+				b, err := r.MarshalBinary()
+				tr.Must(err)
+				r2 := new(ring.Ring)
+				tr.Must(r2.UnmarshalBinary(b))
+				r = r2
+			}
 			if !c.ci {
 				for lvl := 0; lvl <= r.Level(); lvl++ {
 					if d.quick && lvl == 1 {
